@@ -22,6 +22,8 @@ DESIGN_REF = 'DESIGN.md section 4, C03'
 
 
 def run(ck):
+    if getattr(ck, 'depth', 0) >= 2:
+        return      # a shared run of a shared run: nothing of it is selected, and mutual sharing must end somewhere
     F = ck.facts
     L = F.lib
     oracle = load_oracle('ecma_literals.json')
@@ -164,6 +166,7 @@ def run(ck):
     import core as _core
     import rules.c01 as c01
     sub = _core.Check('C01', ck.tier, ck.facts)
+    sub.depth = getattr(ck, 'depth', 0) + 1
     c01.run(sub)
     n3 = 0
     for o in sub.obligations:
